@@ -10,6 +10,7 @@ import (
 	"pgregory.net/rapid"
 
 	"verifharness/eco"
+	"verifharness/gen"
 	"verifharness/known"
 	"verifharness/model"
 )
@@ -50,6 +51,15 @@ func TestC09(t *testing.T) {
 	defer func() { crossCheckPackaging(r, xs) }()
 	rapid.Check(t, func(rt *rapid.T) {
 		a, b := pairFrom(rt, e)
+		if known.Active("C09", "pypi.local_label") && gen.Chance(rt, "dropLocal", 9, 10) {
+			// pairs with a local label fall into the recorded finding: keep them rare
+			if k := strings.Index(a, "+"); k > 0 {
+				a = a[:k]
+			}
+			if k := strings.Index(b, "+"); k > 0 {
+				b = b[:k]
+			}
+		}
 		if _, ok := model.PepCompare(a, b); !ok {
 			r.ev.Count("out_of_domain", 1)
 			return
